@@ -632,6 +632,10 @@ func (p *Parser) parseSwitch() ast.Node {
 			p.nextToken() // move to the token following "case"
 			caseExprs = append(caseExprs, p.parseExpression(LOWEST))
 			for p.peekTokenIs(token.COMMA) {
+				// Once an error is set the tokens no longer advance
+				if p.err != nil {
+					return nil
+				}
 				p.nextToken() // move to the comma
 				p.nextToken() // move to the following expression
 				caseExprs = append(caseExprs, p.parseExpression(LOWEST))
